@@ -30,7 +30,7 @@ def zint(v):
     if isinstance(v, SInt):
         return v.z
     if isinstance(v, bool):
-        return NotImplemented
+        return z3.IntVal(int(v))   # Python: True == 1, False == 0
     if isinstance(v, int):
         return z3.IntVal(v)
     return NotImplemented
